@@ -311,6 +311,12 @@ def load_function(qualname: str, setter: bool = False) -> FunctionInfo:
         if rest[0] in mi.imports:
             return load_function(mi.imports[rest[0]])
         raise SourceError(f"function {qualname} not found in {mi.path}")
+    if len(rest) >= 3:
+        # a function nested in a method (decorator wrappers): Class.method.inner[.inner...] -> kind 'function' (free variables of the
+        # enclosing scopes are bound by the contract's `closure`)
+        nested = _nested_function(mod, mi, rest, qualname)
+        if nested is not None:
+            return nested
     if len(rest) in (2, 3):
         cq = ".".join([mod, *rest[:-1]])
         ci = load_class(cq)
@@ -326,3 +332,20 @@ def load_function(qualname: str, setter: bool = False) -> FunctionInfo:
             return FunctionInfo(qualname, mi, ci, node, k)
         raise SourceError(f"method {qualname} not found in {mi.path}")
     raise SourceError(f"cannot resolve {qualname}")
+
+
+def _nested_function(mod, mi, rest, qualname):
+    ci = load_class(f"{mod}.{rest[0]}")
+    if ci is None:
+        return None
+    for node in ci.methods.get(mangle(ci.node.name, rest[1]), []):
+        cur = node
+        for name in rest[2:]:
+            inner = [x for x in cur.body if isinstance(x, ast.FunctionDef) and x.name == name]
+            if len(inner) != 1:
+                cur = None
+                break
+            cur = inner[0]
+        if cur is not None:
+            return FunctionInfo(qualname, mi, None, cur, "function")
+    return None
